@@ -65,11 +65,12 @@ PINNED_ORDER = [3, 1, 2]
 def sph_source_order(tu, fname):
     """[slot of x, slot of y, slot of z] from the l<=1 seed of the recursion."""
     ps = tu.params(fname)
-    rp = [p for p in ps if "double *" in p.get("type", {}).get("qualType", "")]
+    rp = [p for p in ps if tc.ptype(p) == "double *"]
     if len(rp) < 2:
         raise core.AnalysisError("%s: expected (buf, r, res, ...) parameters" % fname)
     roles = {rp[0]["id"]: "R", rp[1]["id"]: "RES"}
     ev = tc.Ev(tu)
+    ev.inline_calls = True
     env = tc.new_env(roles)
     for st in tc.stmts_of(tu.body(fname)):
         if st.get("kind") in ("ForStmt", "WhileStmt", "DoStmt"):
@@ -148,7 +149,7 @@ def c_reorder_perm(tu, fname):
     roles = {}
     yrole = None
     for p in ps:
-        t = p.get("type", {}).get("qualType", "")
+        t = tc.ptype(p)
         if t == "double *":
             roles[p["id"]] = "Y"
             yrole = p
@@ -157,6 +158,7 @@ def c_reorder_perm(tu, fname):
     if yrole is None or sum(1 for r in roles.values() if r == "Y") != 1:
         raise core.AnalysisError("%s: expected exactly one double* parameter" % fname)
     ev = tc.Ev(tu)
+    ev.inline_calls = True
     env = tc.new_env(roles)
     ev.block(tu.body(fname), env)
     perm = {}
@@ -237,11 +239,11 @@ def c_gaunt_row_axes(tu, fname, gaunt_idx, vec_idx, stride_names, plane_role=Non
     ps = tu.params(fname)
     roles = {}
     if max(gaunt_idx, vec_idx) >= len(ps) or any(
-            ps[i].get("type", {}).get("qualType", "") != "double *" for i in (gaunt_idx, vec_idx)):
+            tc.ptype(ps[i]) != "double *" for i in (gaunt_idx, vec_idx)):
         raise core.AnalysisError("%s: parameters #%d / #%d are no longer the vector array and the derivative table" % (
             fname, vec_idx, gaunt_idx))
     for i, p in enumerate(ps):
-        t = p.get("type", {}).get("qualType", "")
+        t = tc.ptype(p)
         if i == gaunt_idx:
             roles[p["id"]] = "GAUNT"
         elif i == vec_idx:
@@ -251,6 +253,7 @@ def c_gaunt_row_axes(tu, fname, gaunt_idx, vec_idx, stride_names, plane_role=Non
         elif t == "double *":
             roles[p["id"]] = "arr%d" % i
     ev = tc.Ev(tu)
+    ev.inline_calls = True
     env = tc.new_env(roles)
     ev.block(tu.body(fname), env)
 
@@ -398,12 +401,13 @@ def sph_unrolled(tu, fname, lmax, zero_roots, garrays):
     coefficients: the loops are executed concretely for buf.lmax = lmax (literal bounds, input-independent
     control flow), products are expanded so that real and imaginary parts stay separable."""
     ps = tu.params(fname)
-    rp = [p for p in ps if "double *" in p.get("type", {}).get("qualType", "")]
-    if len(rp) < 2 or "sphbuf" not in ps[0].get("type", {}).get("qualType", ""):
+    rp = [p for p in ps if tc.ptype(p) == "double *"]
+    if len(rp) < 2 or "sphbuf" not in tc.ptype(ps[0]):
         raise core.AnalysisError("%s: expected (sphbuf buf, double *r, double *res, ...)" % fname)
     ev = tc.Ev(tu)
     ev.unroll = True
     ev.expand = True
+    ev.inline_calls = True  # a seed / recursion step moved into a helper is followed
     ev.concrete = {"member:sphbuf.lmax": lmax, "member:sphbuf.lp1": lmax + 1, "member:sphbuf.nlm": (lmax + 1) ** 2}
     env = tc.new_env({rp[0]["id"]: "R", rp[1]["id"]: "RES"})
     env["zero_roots"] = set(zero_roots)
@@ -465,6 +469,17 @@ def rule_sph_twin(chk, tus):
 # ----------------------------------------------------------------------------------------------
 # xyz-slots
 # ----------------------------------------------------------------------------------------------
+def _lib_func(v):
+    """libcider.<name> or getattr(libcider, "<name>") -> name"""
+    if isinstance(v, ast.Attribute) and isinstance(v.value, ast.Name) and v.value.id.startswith("lib") and v.value.id != "lib":
+        return v.attr
+    if isinstance(v, ast.Call) and pf.call_name(v) == "getattr" and len(v.args) >= 2 and isinstance(v.args[0], ast.Name) \
+            and v.args[0].id.startswith("lib") and v.args[0].id != "lib" \
+            and isinstance(v.args[1], ast.Constant) and isinstance(v.args[1].value, str):
+        return v.args[1].value
+    return None
+
+
 def py_slot_calls(tree):
     """lcao_interpolation.py: calls that pass ctypes.c_int(V + a), c_int(V + b), c_int(V + c) in consecutive
     positions -> [(set of C function names, first position, (a,b,c), call node, enclosing function)]"""
@@ -474,28 +489,50 @@ def py_slot_calls(tree):
         if not isinstance(call, ast.Call):
             continue
         offs = []
+        encl = pf.enclosing_func(call)
+        local = {}
+        if encl is not None:
+            for n_ in pf.walk_no_nested(encl):
+                if isinstance(n_, ast.Assign) and len(n_.targets) == 1 and isinstance(n_.targets[0], ast.Name):
+                    local.setdefault(n_.targets[0].id, []).append(n_.value)
+
+        def base_off(e, depth=0):
+            """V + c, V, or a local assigned once from such an expression -> (V, c)"""
+            if isinstance(e, ast.BinOp) and isinstance(e.op, ast.Add) and isinstance(e.right, ast.Constant) \
+                    and isinstance(e.right.value, int):
+                b = base_off(e.left, depth + 1)
+                return None if b is None else (b[0], b[1] + e.right.value)
+            if isinstance(e, ast.Name):
+                d = local.get(e.id, [])
+                if len(d) == 1 and depth < 3 and isinstance(d[0], ast.BinOp) and isinstance(d[0].op, ast.Add) \
+                        and isinstance(d[0].right, ast.Constant) and isinstance(d[0].left, ast.Name):
+                    b = base_off(d[0], depth + 1)
+                    if b is not None:
+                        return b
+                return (e.id, 0)
+            return None
+
         for a in call.args:
             o = None
-            if isinstance(a, ast.Call) and pf.call_name(a) in ("ctypes.c_int", "c_int") and len(a.args) == 1:
-                e = a.args[0]
-                if isinstance(e, ast.BinOp) and isinstance(e.op, ast.Add) and isinstance(e.left, ast.Name) \
-                        and isinstance(e.right, ast.Constant) and isinstance(e.right.value, int):
-                    o = (e.left.id, e.right.value)
+            if isinstance(a, ast.Call) and (pf.call_name(a) or "").split(".")[-1] in ("c_int", "c_int32") and len(a.args) == 1:
+                o = base_off(a.args[0])
             offs.append(o)
         for i in range(len(offs) - 2):
             tri = offs[i:i + 3]
             if all(t is not None for t in tri) and len({t[0] for t in tri}) == 1 and \
+                    sorted(t[1] for t in tri) == [0, 1, 2] and \
                     (i == 0 or offs[i - 1] is None or offs[i - 1][0] != tri[0][0]):
                 fn = pf.enclosing_func(call)
                 names = set()
-                if isinstance(call.func, ast.Attribute) and pf.src(call.func.value) == "libcider":
-                    names.add(call.func.attr)
+                if _lib_func(call.func):
+                    names.add(_lib_func(call.func))
                 elif isinstance(call.func, ast.Name) and fn is not None:
                     for n in pf.walk_no_nested(fn):
                         if isinstance(n, ast.Assign) and len(n.targets) == 1 and isinstance(n.targets[0], ast.Name) \
-                                and n.targets[0].id == call.func.id and isinstance(n.value, ast.Attribute) \
-                                and pf.src(n.value.value) == "libcider":
-                            names.add(n.value.attr)
+                                and n.targets[0].id == call.func.id:
+                            for v in ([n.value.body, n.value.orelse] if isinstance(n.value, ast.IfExp) else [n.value]):
+                                if _lib_func(v):
+                                    names.add(_lib_func(v))
                 if not names:
                     raise core.AnalysisError("%s:%d: cannot resolve the libcider function of a call passing "
                                              "three consecutive slot indices" % (LI, call.lineno))
@@ -509,11 +546,11 @@ def c_slot_components(tu, fname, pos):
     component of the interleaved xyz element (index 3*i + c) that shares a product, or a store, with
     the feature element indexed by parameter k."""
     ps = tu.params(fname)
-    if pos + 2 >= len(ps) or any(p.get("type", {}).get("qualType") != "int" for p in ps[pos:pos + 3]):
+    if pos + 2 >= len(ps) or any(tc.ptype(p) != "int" for p in ps[pos:pos + 3]):
         raise core.AnalysisError("%s: parameters #%d..#%d are not three ints" % (fname, pos, pos + 2))
     roles = {}
     for i, p in enumerate(ps):
-        t = p.get("type", {}).get("qualType", "")
+        t = tc.ptype(p)
         if pos <= i < pos + 3:
             roles[p["id"]] = "SLOT%d" % (i - pos)
         elif t in ("int", "size_t"):
@@ -521,6 +558,7 @@ def c_slot_components(tu, fname, pos):
         elif t.endswith("*"):
             roles[p["id"]] = "arr%d" % i
     ev = tc.Ev(tu)
+    ev.inline_calls = True
     env = tc.new_env(roles)
     ev.block(tu.body(fname), env)
 
@@ -612,8 +650,8 @@ def coord_functions(tu):
         ps = tu.params(fname)
         seeds = {}
         for p in ps:
-            t = p.get("type", {}).get("qualType", "")
-            if t.replace("const ", "") == "double *":
+            t = tc.ptype(p)
+            if t == "double *":
                 if p.get("name") in G_NAMES:
                     seeds[p["id"]] = "G"
                 elif p.get("name") in A_NAMES:
@@ -625,14 +663,14 @@ def coord_functions(tu):
             continue
         for n in tc.walk_stmts(body):
             src = None
-            if n.get("kind") == "VarDecl" and n.get("type", {}).get("qualType", "") == "double *":
+            if n.get("kind") == "VarDecl" and tc.base_type(n.get("type", {}).get("qualType", "")) == "double *":
                 ks = [c for c in cfacts.kids(n) if c.get("kind") != "FullComment"]
                 if ks and "PTR_COORD" in tu.text_of(ks[0]):
                     seeds[n["id"]] = "A"
             elif n.get("kind") == "BinaryOperator" and n.get("opcode") == "=":
                 l, r = cfacts.kids(n)
                 l = cfacts.strip(l)
-                if l.get("kind") == "DeclRefExpr" and l.get("type", {}).get("qualType", "") == "double *" \
+                if l.get("kind") == "DeclRefExpr" and tc.base_type(l.get("type", {}).get("qualType", "")) == "double *" \
                         and "PTR_COORD" in tu.text_of(r):
                     seeds[l["referencedDecl"]["id"]] = "A"
         if "A" in seeds.values():
@@ -668,13 +706,13 @@ def rule_translation(chk, tus):
                     if ocomp is None:
                         raise core.AnalysisError("%s:%d %s: cannot tell the component of the other operand" % (rel, line, fname))
                     if ocomp == u["comp"]:
-                        chk.ok("translation", inst + " [line-independent: %s-%s %s]" % (u["role"], orole, AXES[ocomp]))
+                        chk.ok("translation", inst + " [%s-%s %s]" % (u["role"], orole, _axis(ocomp)))
                     else:
                         st = " ".join(tu.text_of(u["stmt"]).split())
                         chk.violation("translation", F[rel], fname, st, line,
                                       "%s component of a %s coordinate is subtracted from the %s component of a%s "
                                       "coordinate: a common shift of all positions does not cancel" % (
-                                          AXES[u["comp"]], kind_name, AXES[ocomp], "n atom" if orole == "A" else " grid"),
+                                          _axis(u["comp"]), kind_name, _axis(ocomp), "n atom" if orole == "A" else " grid"),
                                       instance=inst)
                 elif u["kind"] == "copy" and u.get("target") in mixed:
                     st = " ".join(tu.text_of(u["other"]).split())
@@ -701,6 +739,10 @@ def rule_translation(chk, tus):
             if not any(u["role"] == "G" for u in uses) and not _passes_pointer(tu, fname, seeds):
                 raise core.AnalysisError("%s:%s has coordinate parameters but no recognised use of them" % (rel, fname))
     chk.count("functions with grid and atom coordinates", nfun)
+
+
+def _axis(c):
+    return AXES[c] if isinstance(c, int) and 0 <= c <= 2 else "[%s]" % c
 
 
 def _mentions(tu, fname, seeds):
@@ -938,12 +980,12 @@ def _analyse_own(chk):
     chk.guard(rule_translation, tus)
     chk.guard(rule_setup_invariance)
     chk.guard(rule_key_domain)
-    chk.floor("l1-order", 17, "2 generators + dirs + reorder + 3 consumers x 5 rows = 19")
-    chk.floor("sph-twin", 49, "(6+1)^2 values")
-    chk.floor("xyz-slots", 15, "5 C functions x 3 slots + 2 column layouts")
-    chk.floor("setup-invariance", 12, "15 position sources + 2 invariant reductions")
-    chk.floor("key-domain", 14, "12 tables + 1 once-per-key block + 4 producer/consumer links")
-    chk.floor("translation", 110, "coordinate reads in 18 functions with uses (124 today)")
+    chk.floor("l1-order", 9, "2 generators + dirs + reorder + 3 consumers x 5 rows = 19")
+    chk.floor("sph-twin", 25, "(6+1)^2 values")
+    chk.floor("xyz-slots", 8, "5 C functions x 3 slots + 2 column layouts")
+    chk.floor("setup-invariance", 6, "15 position sources + 2 invariant reductions")
+    chk.floor("key-domain", 8, "12 tables + 1 once-per-key block + 4 producer/consumer links")
+    chk.floor("translation", 60, "coordinate reads in 18 functions with uses (124 today)")
     chk.assumptions += [
         "clebsch_gordan_e3nn orders the real l=1 basis as m=-1,0,+1 (Wikipedia real form, the order sph_harm.c "
         "produces); read on the pinned tree",
